@@ -317,3 +317,51 @@ def _object_edges(g, layer):
                     return False
         return True
     return edge_ok
+
+
+# what a user hook (layer setUp/tearDown, a test run with .debug()) may raise: any Exception
+# subclass that is not one of the named ones (token 'Exception' of kind exact = USER of DESIGN
+# 3.3), plus the named classes that the code under analysis treats specially
+USER_TOKENS = frozenset([T_exact('Exception'), T_exact('NotImplementedError'),
+                         T_exact('MemoryError'), T_exact('KeyboardInterrupt'),
+                         T_exact('SystemExit')])
+
+
+def config_branch(atoms):
+    """branch oracle evaluating ``options.<atom>`` / ``self.options.<atom>`` truth tests and
+    ``... is (not) None`` comparisons from a dict atom -> bool"""
+    def br(test, fi=None):
+        pos, e = truth_test(test)
+        d = dotted(e)
+        if d is not None:
+            last = d.split('.')[-1]
+            if last in atoms and ('options' in d.split('.') or d == last):
+                return atoms[last] if pos else (not atoms[last])
+        if isinstance(e, ast.Compare) and len(e.ops) == 1 and \
+                isinstance(e.comparators[0], ast.Constant) and e.comparators[0].value is None:
+            d = dotted(e.left)
+            if d is not None and d.split('.')[-1] in atoms and 'options' in d.split('.'):
+                v = atoms[d.split('.')[-1]]
+                res = (not v) if isinstance(e.ops[0], ast.Is) else v
+                return res if pos else (not res)
+        return None
+    return br
+
+
+def eval_bool(expr, atom):
+    """three-valued evaluation of a boolean expression: *atom(leaf expr)* -> True/False/None"""
+    if isinstance(expr, ast.BoolOp):
+        vals = [eval_bool(v, atom) for v in expr.values]
+        if isinstance(expr.op, ast.And):
+            if any(v is False for v in vals):
+                return False
+            return True if all(v is True for v in vals) else None
+        if any(v is True for v in vals):
+            return True
+        return False if all(v is False for v in vals) else None
+    if isinstance(expr, ast.UnaryOp) and isinstance(expr.op, ast.Not):
+        v = eval_bool(expr.operand, atom)
+        return None if v is None else (not v)
+    if isinstance(expr, ast.Constant):
+        return bool(expr.value)
+    return atom(expr)
